@@ -413,20 +413,22 @@ impl Endpoint {
             Side::Server => (&mut c.s2c, c.server_write_max),
             Side::Client => (&mut c.c2s, usize::MAX),
         };
+        let n = data.len().min(max.max(1));
+        if dir.discard {
+            // an injected fault sits between the two ends: the writer sees a healthy peer
+            dir.written_log.extend_from_slice(&data[..n]);
+            return Poll::Ready(Ok(n));
+        }
         if kind == Kind::Unix && dir.reader_gone {
             drop(g);
             count("write_epipe");
             return Poll::Ready(Err(io::Error::from_raw_os_error(32)));
         }
-        let n = data.len().min(max.max(1));
         if n < data.len() {
             count("partial_write");
         }
         let data = &data[..n];
         dir.written_log.extend_from_slice(data);
-        if dir.discard {
-            return Poll::Ready(Ok(n));
-        }
         // injected faults on the accepting side's first write of a unix connection
         if self.side == Side::Server && kind == Kind::Unix && !c.fault_applied && !data.is_empty() {
             c.fault_applied = true;
